@@ -203,6 +203,13 @@ class ShuffleReduce(Expr):
         unmap_columns = {v: k for k, v in map_columns.items()}
         if map_columns:
             chunked = RenameFrame(chunked, map_columns)
+        # the keys have to follow the renaming, otherwise they are taken for
+        # index levels and the data is shuffled by the index
+        # (renaming is a no-op for MultiIndex columns, those keep their key)
+        shuffle_by = [
+            map_columns[col] if map_columns.get(col) in chunked.columns else col
+            for col in split_by
+        ]
 
         # Sort or shuffle
         split_every = getattr(self, "split_every", 0) or chunked.npartitions
@@ -216,14 +223,14 @@ class ShuffleReduce(Expr):
         if self.sort:
             shuffled = SortValues(
                 chunked,
-                split_by,
+                shuffle_by,
                 npartitions=shuffle_npartitions,
                 ignore_index=ignore_index,
             )
         else:
             shuffled = RearrangeByColumn(
                 chunked,
-                split_by,
+                shuffle_by,
                 shuffle_npartitions,
                 ignore_index=ignore_index,
                 index_shuffle=not split_by_index and self.shuffle_by_index,
